@@ -114,6 +114,35 @@ def run(rep, tier, rng):
         rep.count(f"coerce_len{min(len(tup), 5)}")
         rep.count("coerce_" + o_py[0])
 
+    # ---- call history: one surviving type object, the other argument a temporary that is freed after each call ----
+    # (CPython hands the next temporary the address of the previous one: an answer must depend on the types, never on
+    # object identity of earlier arguments)
+    def observe_pair(args, us):
+        try:
+            res = coerce_types(*args)
+            eqs = [i for i, o in enumerate(args) if o is res] or [i for i, o in enumerate(args) if o == res]
+            return (f"(OOk {coq_ty(us[eqs[0]])})" if eqs else "OOther"), ("ok", us[eqs[0]] if eqs else None)
+        except SpaTypeError as e:
+            msg = str(e)
+            r = {"Different vocabularies": "DifferentVocabularies", "Dimensionality mismatch": "DimensionalityMismatch",
+                 "Incompatible types": "IncompatibleTypes"}.get(msg.split(":")[0])
+            return (f"(OErr {r})" if r else "OOther"), ("SpaTypeError", msg.split(":")[0])
+        except Exception as e:  # noqa
+            return "OOther", (type(e).__name__, str(e))
+    for us in U:
+        surv = mk(us)
+        for rnd in range(2):
+            others = list(U)
+            rng.shuffle(others)
+            for uo in others:
+                for order in (0, 1):
+                    utup = (uo, us) if order == 0 else (us, uo)
+                    obs, o_py = observe_pair((mk(uo), surv) if order == 0 else (surv, mk(uo)), utup)
+                    exprs.append(f"check_coerce {cdims} {c.lst([coq_ty(u) for u in utup])} {obs}")
+                    meta.append(("coerce", list(utup), o_py))
+                    rep.case(("coerce-temporary", us, uo, order, rnd), nontrivial=us != uo)
+                    rep.count("coerce_with_temporaries")
+
     # ---- equality and hash of a vocabulary type do not depend on the vocabulary's current contents -----------
     import numpy as np
     import nengo_spa as spa
